@@ -118,7 +118,7 @@ DriftOf(pre, rec, post) ==
       f2 == {f \in BankFields : es.bank[f] # post.bank[f]}
       f3 == IF rec.ev \in EnvEvents \/ rec.ev = "EndBlock" THEN {}
             ELSE {"users"} \cap (IF es.bank.users # post.bank.users THEN {"users"} ELSE {})
-      f4 == IF rec.ev \in {"Unjail", "Accrue", "AccrueFees", "NativeDelegate", "NativeUndelegate", "StakingEndBlock", "BeginBlock", "Donate", "ExportImport"} THEN {}
+      f4 == IF rec.ev \in {"RealSlash", "Unjail", "Accrue", "AccrueFees", "NativeDelegate", "NativeUndelegate", "StakingEndBlock", "BeginBlock", "Donate", "ExportImport"} THEN {}
             ELSE IF r.ok # rec.res.ok THEN {"ok"} ELSE {}
   IN  f1 \cup f2 \cup f3 \cup f4
 
@@ -137,8 +137,9 @@ Next ==
               /\ gh' = GhostStart(post, rec)
               /\ tr' = rec.trace
               /\ l' = l + 1
+              /\ PrintT("COVER " \o ToJson([trace |-> rec.trace, i |-> rec.i, tags |-> {"init"}]))
               /\ LET v == JudgeState(post, rec, GhostStart(post, rec)) IN
-                   \A x \in v : PrintT("VIOL " \o ToJson([trace |-> rec.trace, i |-> rec.i, ev |-> rec.ev, prop |-> x.p, msg |-> x.m]))
+                   \A x \in v : PrintT("VIOL " \o ToJson([trace |-> rec.trace, i |-> rec.i, ev |-> rec.ev, prop |-> x.p, msg |-> x.m, kf |-> x.kf]))
          ELSE LET gh2 == GhostNext(gh, st, rec, post)
                   v == Judge(st, rec, post, gh, gh2)
                   d == DriftOf(st, rec, post)
@@ -147,7 +148,7 @@ Next ==
                   /\ gh' = gh2
                   /\ tr' = tr
                   /\ l' = l + 1
-                  /\ \A x \in v : PrintT("VIOL " \o ToJson([trace |-> tr, i |-> rec.i, ev |-> rec.ev, prop |-> x.p, msg |-> x.m]))
+                  /\ \A x \in v : PrintT("VIOL " \o ToJson([trace |-> tr, i |-> rec.i, ev |-> rec.ev, prop |-> x.p, msg |-> x.m, kf |-> x.kf]))
                   /\ d = {} \/ PrintT("DRIFT " \o ToJson([trace |-> tr, i |-> rec.i, ev |-> rec.ev, fields |-> d]))
                   /\ c = {} \/ PrintT("COVER " \o ToJson([trace |-> tr, i |-> rec.i, tags |-> c]))
 
